@@ -108,6 +108,13 @@ pub fn judge(_part: &str, case: &Case, tally: &mut Tally) -> Verdict {
     if v != Verdict::Pass {
         return v;
     }
+    if case.nums.first() == Some(&1) {
+        use crate::reffn::RefFn::*;
+        let pure = |f: &crate::reffn::RefFn| matches!(f, Lf | Nel | Ri | Su(_) | Sd(_) | Il(_) | Dl(_) | Print(_) | Cha(_));
+        if let Some(v) = crate::spec::mode_frame_check(case, &pure, tally) {
+            return v;
+        }
+    }
     Verdict::Pass
 }
 
@@ -184,7 +191,7 @@ pub fn run(env: &Env) -> PropRun {
                 s.push_str(&b.stbm[d[0]]);
                 s.push_str(PENS[d[2]]);
                 s.push_str(&format!("\x1b[{};1H", d[1] + 1));
-                return Some(Case::new(b.cols, b.rows, screen_limit(d[3])).feed(s).feed(b.cmds[d[5]].clone()));
+                return Some(Case::new(b.cols, b.rows, screen_limit(d[3])).feed(s).feed(b.cmds[d[5]].clone()).with_nums(vec![(i % 4 == 0) as usize]));
             }
             i -= b.total;
         }
